@@ -1112,11 +1112,23 @@ where
         remote: NodeId,
         result: Result<fetch::FetchResult, FetchError>,
     ) {
-        let Some(fetching) = self.fetching.remove(&rid) else {
-            error!(target: "service", "Received unexpected fetch result for {rid}, from {remote}");
-            return;
+        let fetching = match self.fetching.entry(rid) {
+            Entry::Occupied(e) if e.get().from == remote => e.remove(),
+            Entry::Occupied(e) => {
+                // This can happen if the fetch was restarted with another peer, eg. after
+                // `remote` disconnected, and the result of the original fetch arrives late.
+                warn!(
+                    target: "service",
+                    "Ignoring fetch result for {rid} from {remote}: fetch is on-going with {}",
+                    e.get().from
+                );
+                return;
+            }
+            Entry::Vacant(_) => {
+                error!(target: "service", "Received unexpected fetch result for {rid}, from {remote}");
+                return;
+            }
         };
-        debug_assert_eq!(fetching.from, remote);
 
         if let Some(s) = self.sessions.get_mut(&remote) {
             // Mark this RID as fetched for this session.
